@@ -55,15 +55,16 @@ func parseTyp(s string) (ityp, bool) {
 }
 
 type target struct {
-	Kind    string // "func" | "cond"
-	File    string
-	Recv    string // receiver type name for methods ("" for functions)
-	Name    string // function name
-	Lean    string // Lean definition name
-	Env     map[string]ityp
-	Params  []string // for "cond": Lean parameter order (expressions as they appear in Go, e.g. "ne.epoch")
-	Mention string   // for "cond": the if-condition must mention this identifier
-	NamedTy map[string]ityp
+	Kind     string // "func" | "cond"
+	File     string
+	Recv     string // receiver type name for methods ("" for functions)
+	Name     string // function name
+	Lean     string // Lean definition name
+	Env      map[string]ityp
+	Params   []string // for "cond": Lean parameter order (expressions as they appear in Go, e.g. "ne.epoch")
+	Mention  string   // for "cond": the if-condition must mention this identifier
+	Mention2 string   // for "cond" (optional): ... and this one too
+	NamedTy  map[string]ityp
 }
 
 type tr struct {
@@ -373,8 +374,10 @@ func (t *tr) stmts(list []ast.Stmt, k []ast.Stmt, depth int) string {
 		}
 		return out + t.stmts(rest, k, depth)
 	case *ast.IfStmt:
-		if v.Init != nil {
-			return t.fail(s, "if with init statement")
+		if v.Init != nil { // `if x := e; cond {…}` = `x := e` followed by the plain if (names are function-local)
+			cp := *v
+			cp.Init = nil
+			return t.stmts(append([]ast.Stmt{v.Init, &cp}, rest...), k, depth)
 		}
 		c, _ := t.expr(v.Cond)
 		cont := append(append([]ast.Stmt{}, rest...), k...)
@@ -389,8 +392,10 @@ func (t *tr) stmts(list []ast.Stmt, k []ast.Stmt, depth int) string {
 		}
 		return "if " + c + " then\n" + ind(depth+1) + thenS + "\n" + ind(depth) + "else\n" + ind(depth+1) + elseS
 	case *ast.SwitchStmt:
-		if v.Init != nil {
-			return t.fail(s, "switch with init")
+		if v.Init != nil { // `switch x := e; x {…}` = `x := e` followed by the plain switch
+			cp := *v
+			cp.Init = nil
+			return t.stmts(append([]ast.Stmt{v.Init, &cp}, rest...), k, depth)
 		}
 		cont := append(append([]ast.Stmt{}, rest...), k...)
 		var tag string
@@ -650,14 +655,17 @@ func translate(repo string, tg target) (string, []string) {
 		var found []ast.Expr
 		ast.Inspect(fd.Body, func(n ast.Node) bool {
 			if is, ok := n.(*ast.IfStmt); ok {
-				mentions := false
+				mentions, mentions2 := false, tg.Mention2 == ""
 				ast.Inspect(is.Cond, func(m ast.Node) bool {
 					if id, ok := m.(*ast.Ident); ok && id.Name == tg.Mention {
 						mentions = true
 					}
+					if id, ok := m.(*ast.Ident); ok && id.Name == tg.Mention2 {
+						mentions2 = true
+					}
 					return true
 				})
-				if mentions {
+				if mentions && mentions2 {
 					found = append(found, is.Cond)
 				}
 			}
